@@ -23,6 +23,7 @@ def run():
         ck.add_model(cfg[:-4], r, '2 objects, every creating call x {jit} x {large} x failing step 0..4, create/destroy cycles; ' + what)
         if not r['ok']:
             ck.violation('model:' + cfg, 'allocation model violates an invariant', vlib.tlc_error_summary(r['out'], 50))
+    ck.sensitivity('RxAlloc', 'MCAlloc_earlyout.cfg', 'deallocCache returns early when no memory is set (the JIT compiler of a half-built cache is never deleted)')
     r1, cases = enumerate_from_model()
     ck.add_model('MCAlloc1(enumeration)', r1, '1 object; edge labels give the (call, flags, k) space to replay')
     if len(cases) < 20:
